@@ -587,6 +587,12 @@ fn gen_case(rng: &mut Rng, id: usize, tier: &str) -> String {
         }
         lens.push(l.min(maxlen).max(w));
     }
+    // one small case in fourteen has one LONG sequence (200..700 symbols: 7..22 striped rows, so that windows
+    // lie inside one column, far from the wrap rows, and starts reach well beyond the first striped column)
+    if !big && rng.chance(1, 14) {
+        let i = rng.below(n as u64) as usize;
+        lens[i] = 200 + rng.below(500) as usize;
+    }
     // how the striped sequences are built: see "data sets" above
     let src = match rng.below(4) {
         0 => "matrix",
@@ -605,6 +611,14 @@ fn gen_case(rng: &mut Rng, id: usize, tier: &str) -> String {
             if rng.chance(2, 3) && l >= w {
                 let p = rng.below((l - w + 1) as u64) as usize;
                 s.replace_range(p..p + w, &planted);
+            }
+            // a RUN of wildcards (N / X) of length 1..w+2 in one sequence out of four: windows made of
+            // wildcards only, wildcard counts in the motif rows, -inf wildcard cells elsewhere
+            if rng.chance(1, 4) && l > 2 {
+                let run = (1 + rng.below((w + 2) as u64) as usize).min(l - 1);
+                let p = rng.below((l - run + 1) as u64) as usize;
+                let wc = if abc == "protein" { "X" } else { "N" };
+                s.replace_range(p..p + run, &wc.repeat(run));
             }
             s
         })
@@ -667,7 +681,7 @@ fn gen_case(rng: &mut Rng, id: usize, tier: &str) -> String {
         2 => "avx2",
         _ => "default",
     };
-    let wrap = w + *rng.pick(&[0usize, 0, 1, 5]);
+    let wrap = w + *rng.pick(&[0usize, 0, 1, 5, 12]);
     format!(
         "{} abc={} w={} mode={} api={} seeds={} inertia={} patience={} ord={} rng={} steps={} arm={} wrap={} fl={} src={} pads={} sseed={} seqs={}",
         id,
